@@ -111,7 +111,7 @@ PROPS = {
     },
     # (names in a schema document are validated by the stock regular-expression datatypes: C10 depends on
     # "prefix match, then compare with the whole text" and on the languages of the three patterns)
-    'C10': {'functions': INFO_BUILD + SCHEMA_FNS + ['datatypes.RegularExpressionConversion.__call__',
+    'C10': {'functions': INFO_BUILD + SCHEMA_FNS + ['schema.BaseParser.__init__', 'datatypes.RegularExpressionConversion.__call__',
                                                     'datatypes.BasicKeyConversion.__call__'],
             'rx': ['rx:datatypes.basic-key', 'rx:datatypes.identifier', 'rx:datatypes.dotted-name'], 'standin': True},
     'C11': {'functions': INFO_BUILD + SCHEMA_FNS + ['schema.SchemaParser.start_schema'], 'standin': True},
